@@ -7,17 +7,26 @@
         10 DuplicateWithIndex zs
      ty  0 int, 1 string, 2 float64 — the element type the harness instantiates
          the generic function at (values are an injective renaming of the
-         integers on the wire); the model is the same for every ty.
+         integers on the wire); the model is the same for these three.
+         3 float64 WITH NaN and signed zeros (stream `nan`, harness/c11nan.go):
+         the words are float CODES (C11_ModelNaN.v: n, negz_code, nan_code), the
+         model is the generic transcription at [feq], the key functions are
+         [fkey_of].
      k   key function: 0 id, 1 x%2, 2 const 0, 3 x/2, 4 |x|
+         at ty 3: 0 id, 1 math.Mod(x,2), 2 const +0, 3 -x, 4 math.Abs, 5 const NaN,
+         6 x*0, 7 (NaN -> NaN, Signbit -> -1, else 1)
      tree (prefix code): 0 v = a T;  1 n v1..vn = a []T;  2 n t1..tn = a []any;
                          3 / 4 / 5 = a scalar of another type / nil / a slice of another
                          type: a value of some other dynamic type
    output: slices as enc_zs; (slice, error) / panicking calls as enc_res with
            every error kind collapsed to 1; Duplicate sorted ascending (the Go
            result is in map-iteration order); DuplicateWithIndex as the
-           key-sorted list of (key, index) pairs. *)
+           key-sorted list of (key, index) pairs.  At ty 3 the sorts are by code
+           and [c11_holds] compares Duplicate's result up to the sign of zero
+           (the clause does not say which of two == values stands for both; the
+           model, hence [c11_agree], says the last occurrence). *)
 
-From Gogu Require Import Base C11_Model.
+From Gogu Require Import Base C11_Model C11_ModelNaN.
 
 Definition key_of (c : Z) : Z -> Z :=
   match c with
@@ -75,7 +84,8 @@ Definition ed := Z.eq_dec.
 (* one dispatcher, instantiated with the model functions ([c11_run]) and with
    the reference definitions of the specification ([c11_spec]) *)
 Section Dispatch.
-  Context (f_unique : list Z -> list Z)
+  Context (key_of : Z -> Z -> Z)
+          (f_unique : list Z -> list Z)
           (f_unique_by : (Z -> Z) -> list Z -> list Z)
           (f_union : nest Z -> res (list Z))
           (f_inter : list (list Z) -> res (list Z))
@@ -121,22 +131,45 @@ Section Dispatch.
     end.
 End Dispatch.
 
-(* the model (the Go code after the two repairs) *)
-Definition c11_run : list Z -> list Z :=
-  dispatch (unique ed) (unique_by ed) (union ed) (intersection ed) (intersection_by ed)
+(* the model (the Go code after the repairs), at a type with reflexive == ... *)
+Definition c11_run_refl : list Z -> list Z :=
+  dispatch key_of (unique ed) (unique_by ed) (union ed) (intersection ed) (intersection_by ed)
            (difference ed) (difference_by ed) (without ed) (duplicate ed) (duplicate_with_index ed).
+(* ... and at float64 with NaN and signed zeros: the generic transcription at [feq] *)
+Definition c11_run_nan : list Z -> list Z :=
+  dispatch fkey_of (gunique feq) (gunique_by feq) (gunion feq) (gintersection feq) (gintersection_by feq)
+           (gdifference feq) (gdifference_by feq) (gwithout feq) (gduplicate feq) (gduplicate_with_index feq).
 
-(* the specification: the reference definitions the theorems of C11_Props.v
-   relate the model to (uniq_ref, filter, leaves, count_occ, first_index) *)
-Definition c11_spec : list Z -> list Z :=
-  dispatch (uniq_ref ed) (unique_by_ref ed) (union_ref ed) (intersection_ref ed) (intersection_by_ref ed)
+Definition is_nan_ty (w : list Z) : bool := match w with _ :: 3 :: _ => true | _ => false end.
+
+Definition c11_run (w : list Z) : list Z := if is_nan_ty w then c11_run_nan w else c11_run_refl w.
+
+(* the specification: the reference definitions the theorems of C11_Props.v /
+   C11_PropsNaN.v relate the model to (uniq_ref, filter, leaves, count_occ,
+   first_index and their == versions) *)
+Definition c11_spec_refl : list Z -> list Z :=
+  dispatch key_of (uniq_ref ed) (unique_by_ref ed) (union_ref ed) (intersection_ref ed) (intersection_by_ref ed)
            (difference_ref ed) (difference_by_ref ed) (difference_ref ed) (duplicate_ref ed)
            (duplicate_with_index_ref ed).
+Definition c11_spec_nan : list Z -> list Z :=
+  dispatch fkey_of (guniq_ref feq) (gunique_by_ref feq) (gunion_ref feq) (gintersection_ref feq)
+           (gintersection_by_ref feq) (gdifference_ref feq) (gdifference_by_ref feq) (gdifference_ref feq)
+           (gduplicate_ref feq) (gduplicate_with_index_ref feq).
+Definition c11_spec (w : list Z) : list Z := if is_nan_ty w then c11_spec_nan w else c11_spec_refl w.
 
 Definition c11_agree (w obs : list Z) : bool := zlist_eqb obs (c11_run w).
 
+(* Duplicate at ty 3, up to the sign of zero *)
+Definition norm_dup (o : list Z) : list Z :=
+  match o with n :: l => n :: zsort (map fnorm l) | [] => [] end.
+
 (* Every clause of C11 determines the (canonicalised) observable uniquely —
    Duplicate/DuplicateWithIndex up to the order of a Go map, which the harness
-   and [dispatch] remove by sorting — so the property holds of an observation
-   iff it is the one the reference definitions give. *)
-Definition c11_holds (w obs : list Z) : bool := zlist_eqb obs (c11_spec w).
+   and [dispatch] remove by sorting, Duplicate at float64 also up to the sign of
+   a zero — so the property holds of an observation iff it is the one the
+   reference definitions give. *)
+Definition c11_holds (w obs : list Z) : bool :=
+  match w with
+  | 9 :: 3 :: _ => zlist_eqb (norm_dup obs) (norm_dup (c11_spec w))
+  | _ => zlist_eqb obs (c11_spec w)
+  end.
